@@ -390,7 +390,7 @@ theorem executes_iff_funded (h : Handler) (prices : List Nat) (tx : Tx) (v : Vie
 
 /-- The gap between `PreExecute` and `Execute` ("Invariant: PreExecute is called just before
 Execute ... should never fail for low balance"): `CanDeduct` accepts but the fee step fails
-**exactly** when the fee is zero and the sponsor has no balance record — `GetBalance` reads an
+**only** when the fee is zero and the sponsor has no balance record — `GetBalance` reads an
 absent record as 0, `Deduct` insists on an existing record. -/
 theorem execute_error_after_preexecute_ok (h : Handler) (a : Addr) (v : View) (fee : Nat)
     (hr : has (v.scope (h.key a)) permRead = true)
